@@ -7,9 +7,17 @@
 // negated condition that must be unsatisfiable.  Kani's `assert!` is assert-then-assume, so
 // the first violated assertion on a path hides every later one (and with it the property
 // tags of the later ones); covers do not constrain the path.
+#[cfg(not(test))]
 macro_rules! vassert {
     ($cond:expr, $msg:literal) => {
         kani::cover!(!($cond), $msg)
+    };
+}
+// native replay (cargo kani playback compiles with cfg(test)): a real assertion
+#[cfg(test)]
+macro_rules! vassert {
+    ($cond:expr, $msg:literal) => {
+        assert!($cond, $msg)
     };
 }
 
